@@ -3,6 +3,7 @@ package exec
 import (
 	"sort"
 
+	"github.com/ChrisTrenkamp/xsel/node"
 	"github.com/ChrisTrenkamp/xsel/store"
 )
 
@@ -141,13 +142,13 @@ func selectFollowing(nodeSet NodeSet) Result {
 }
 
 func appendFollowing(cursor store.Cursor, result []store.Cursor) []store.Cursor {
-	parent := cursor.Parent()
-
-	if parent.Pos() == 0 {
+	if cursor.Pos() == 0 {
 		return result
 	}
 
-	found := false
+	parent := cursor.Parent()
+	// Attributes and namespaces precede the children of their element.
+	found := !isTreeNode(cursor)
 
 	for _, i := range parent.Children() {
 		if i.Pos() == cursor.Pos() {
@@ -175,12 +176,11 @@ func selectFollowingSibling(nodeSet NodeSet) Result {
 }
 
 func appendFollowingSibling(cursor store.Cursor, result []store.Cursor) []store.Cursor {
-	parent := cursor.Parent()
-
-	if parent.Pos() == 0 {
+	if cursor.Pos() == 0 || !isTreeNode(cursor) {
 		return result
 	}
 
+	parent := cursor.Parent()
 	children := parent.Children()
 	start := 0
 
@@ -192,6 +192,17 @@ func appendFollowingSibling(cursor store.Cursor, result []store.Cursor) []store.
 	}
 
 	return append(result, children[start+1:]...)
+}
+
+// isTreeNode reports whether the cursor is a child of its parent, i.e. it is
+// not an attribute or namespace node.
+func isTreeNode(cursor store.Cursor) bool {
+	switch cursor.Node().(type) {
+	case node.Attribute, node.Namespace:
+		return false
+	}
+
+	return true
 }
 
 func selectNamespace(nodeSet NodeSet) Result {
@@ -227,12 +238,11 @@ func selectPreceding(nodeSet NodeSet) Result {
 }
 
 func appendPreceding(cursor store.Cursor, result []store.Cursor) []store.Cursor {
-	parent := cursor.Parent()
-
-	if parent.Pos() == 0 {
+	if cursor.Pos() == 0 {
 		return result
 	}
 
+	parent := cursor.Parent()
 	found := false
 	children := parent.Children()
 
@@ -262,11 +272,11 @@ func selectPrecedingSibling(nodeSet NodeSet) Result {
 }
 
 func appendPrecedingSibling(cursor store.Cursor, result []store.Cursor) []store.Cursor {
-	parent := cursor.Parent()
-
-	if parent.Pos() == 0 {
+	if cursor.Pos() == 0 || !isTreeNode(cursor) {
 		return result
 	}
+
+	parent := cursor.Parent()
 
 	children := parent.Children()
 	end := 0
